@@ -187,6 +187,47 @@ theorem unlocated_error_has_no_prefix (tpl : List Piece) (ind : Text) (pos : Lis
     (msg : Text) : errorMessage tpl ind pos (.mk none msg []) = .ok msg := by
   simp [errorMessage, locPrefix, Res.bind]
 
+theorem renderTemplate_gen (l c : Nat) : renderTemplate Gen.Lineno.prefixTemplate l c = atLine l c := by
+  have : Gen.Lineno.prefixTemplate =
+      [.lit (Text.ofString "At line "), .line, .lit (Text.ofString " and column "), .col,
+       .lit (Text.ofString ": ")] := by decide
+  rw [this]
+  simp [renderTemplate, List.flatMap, atLine]
+
+/-- Nesting keeps the locations: every underlying error with a node (offset inside the text), at
+any position in the list, starts a fresh line with the indentation followed by
+`At line L and column C: ` for the line and column of *its* offset. -/
+theorem nested_error_keeps_its_prefix (ind : Text) (t : Text) (st : Option Nat) (msg : Text)
+    (us1 : List Err) (s : Nat) (msg' : Text) (und' us2 : List Err) (out : Text) (hs : s < t.length)
+    (h : errorMessage Gen.Lineno.prefixTemplate ind (positions Gen.Lineno.newline t)
+          (.mk st msg (us1 ++ Err.mk (some s) msg' und' :: us2)) = .ok out) :
+    ∃ a b, out = a ++ 10 :: (ind ++ atLine (1 + (t.take s).count Gen.Lineno.newline)
+        (s - lineStart Gen.Lineno.newline t s + 1)) ++ b := by
+  rw [errorMessage] at h
+  cases hp : locPrefix Gen.Lineno.prefixTemplate (positions Gen.Lineno.newline t) st with
+  | crash site => rw [hp] at h; simp [Res.bind] at h
+  | ok pfx =>
+    rw [hp] at h
+    simp only [Res.bind] at h
+    cases hund : us1 ++ Err.mk (some s) msg' und' :: us2 with
+    | nil => simp at hund
+    | cons w ws =>
+      rw [hund] at h
+      simp only at h
+      cases hb : underlyingText Gen.Lineno.prefixTemplate ind (positions Gen.Lineno.newline t) (w :: ws) with
+      | crash site => rw [hb] at h; simp at h
+      | ok body =>
+        rw [hb] at h
+        simp only [Res.ok.injEq] at h
+        rw [← hund] at hb
+        obtain ⟨a, b, hab, ha⟩ := underlyingText_keeps_prefix Gen.Lineno.prefixTemplate ind
+          Gen.Lineno.newline t atLine renderTemplate_gen atLine_no_break
+          (fun l c => ⟨65, _, rfl, by decide⟩) us1 s msg' und' us2 body hs hb
+        unfold lineOf colOf at hab
+        rcases ha with ha | ⟨a', ha⟩
+        · exact ⟨pfx ++ msg, b, by rw [← h, hab, ha]; simp⟩
+        · exact ⟨pfx ++ msg ++ 10 :: a', b, by rw [← h, hab, ha]; simp⟩
+
 /-! ## Concrete instances (non-vacuity, and the witnesses of the two repaired defects) -/
 
 /-- The witness of the repaired column shift: `y` of `"x\ny"` is at line 2, column 1
@@ -207,5 +248,11 @@ example : errorMessage Gen.Lineno.prefixTemplate (Text.ofString "  ")
 example : errorMessage Gen.Lineno.prefixTemplate Gen.Lineno.indentPrefix
     (positions Gen.Lineno.newline (Text.ofString "ab")) (.mk (some 2) (Text.ofString "m") [])
     = .crash "IndexError" := by decide
+
+/-- `nested_error_keeps_its_prefix` on a concrete tree: the second underlying error (offset 3 = `c`). -/
+example : errorMessage Gen.Lineno.prefixTemplate (Text.ofString "  ")
+    (positions Gen.Lineno.newline (Text.ofString "ab\ncd"))
+    (.mk none (Text.ofString "top") ([.mk none (Text.ofString "u") []] ++ .mk (some 3) (Text.ofString "v") [] :: []))
+    = .ok (Text.ofString "top\n  u\n  At line 2 and column 1: v") := by decide
 
 end AasVerif.Props.C04
